@@ -459,3 +459,28 @@ CASES += [
         acc
 ''', checks=['C04']),
 ]
+
+# second round of behaviour-preserving patches (bn5 .. bn8), and mutants written in their style
+_BN2 = {5: ['C01', 'C02', 'C03', 'C04', 'C05', 'C06', 'C07', 'C09', 'C12', 'C13', 'C19', 'C20'],
+        6: ['C01', 'C03', 'C04', 'C05', 'C06', 'C08', 'C09', 'C10', 'C11', 'C12', 'C14'],
+        7: ['C07', 'C09', 'C10', 'C11', 'C12', 'C13', 'C14', 'C20'],
+        8: ['C15', 'C16', 'C17', 'C18']}
+_BN2_FILE = {5: B, 6: P, 7: M, 8: Q}
+for _k, _checks in _BN2.items():
+    for _n in range(1, 9):
+        CASES.append(dict(id='bn%d-%02d' % (_k, _n), kind='silent', file=_BN2_FILE[_k], patch='bn%d-%02d.diff' % (_k, _n), checks=_checks, control=False))
+
+CASES += [
+ dict(id='fp-break-value-wrong-next', kind='fire', file=B, patch='bn5-03.diff', old='            s = snew;', new='            s = t(snew);', expect={'C06': 'FP'}, control=False),
+ dict(id='named-comparator-wrong', kind='fire', file=B, patch='bn5-06.diff', old='    n >= 0\n', new='    n > 0\n', expect={'C05': 'S'}, control=False),
+ dict(id='count-direct-wrong-offset', kind='fire', file=B, patch='bn5-07.diff', old='self.cmp_count_compare(a, b, 1, Self::aln)', new='self.cmp_count_compare(a, b, 0, Self::aln)', expect={'C05': 'S'}, control=False),
+ dict(id='table-matches-wrong-arm', kind='fire', file=M, patch='bn7-04.diff', old='            | (TruthTableEntry::False, BDD::False)', new='            | (TruthTableEntry::False, BDD::True)', expect={'C10': 'X2'}, control=False),
+ dict(id='headers-helper-no-result-column', kind='fire', file=M, patch='bn7-06.diff', old='    headers.push("*".to_string());\n', new='', expect={'C10': 'X3'}, control=False),
+ dict(id='sudoku-push-loop-wrong-index', kind='fire', file=U, patch='bn8-05.diff', old='let cell = lt + ((l / root) * square + (l % root));', new='let cell = lt + ((l / root) * square + (l % square));', expect={'C17': 'U'}, control=False),
+ dict(id='graph-match-args-swapped', kind='fire', file=G, patch='bn8-07.diff', old='(Some(vertices), Some(edges)) => generate_graph(vertices, edges, args.undirected)?,', new='(Some(vertices), Some(edges)) => generate_graph(edges, vertices, args.undirected)?,', expect={'C18': 'generate_graph'}, control=False),
+ dict(id='graph-writer-match-swapped', kind='fire', file=G, patch='bn8-08.diff', old='writeln!(writer, "    {} -> {}", from, to)?;', new='writeln!(writer, "    {} -> {}", to, from)?;', expect={'C18': 'writer'}, control=False),
+ dict(id='quantifier-kind-mismatch', kind='fire', file=P, patch='bn6-01.diff', old='                Self::parse_quantifier(tokens, QuantifierType::Exists)', new='                Self::parse_quantifier(tokens, QuantifierType::Forall)', expect={'C08': 'A'}, control=False),
+ dict(id='binop-table-wrong', kind='fire', file=P, patch='bn6-02.diff', old='Some(SymbolicBDDToken::Nor) => BinaryOperator::Nor,', new='Some(SymbolicBDDToken::Nor) => BinaryOperator::Nand,', expect={'C03': 'T'}, control=False),
+ dict(id='keyword-helper-wrong', kind='fire', file=P, patch='bn6-06.diff', old='        "exists" | "any" => SymbolicBDDToken::Exists,\n        "forall" | "all" => SymbolicBDDToken::Forall,', new='        "exists" => SymbolicBDDToken::Exists,\n        "forall" | "all" | "any" => SymbolicBDDToken::Forall,', expect={'C04': 'T'}, control=False),
+ dict(id='dot-leaf-matches-wrong', kind='fire', file=IO, patch='bn6-08.diff', old='                        | (TruthTableEntry::False, BDD::False)', new='                        | (TruthTableEntry::False, BDD::True)', expect={'C14': 'X2'}, control=False),
+]
